@@ -161,6 +161,7 @@ package virtual
 //@ func (*inMemoryPrepopulatedDirectory).removeAllChildren
 //@   props C13
 //@   ensures only-deleted-when-asked-to: !deleteSelf ==> i.contents.isDeleted == old(i.contents.isDeleted)
+//@   ensures a-removed-directory-accepts-no-new-entries-whether-or-not-it-was-ever-listed: deleteSelf ==> i.contents.isDeleted
 //@ func (*inMemoryPrepopulatedDirectory).postRemoveChildren
 //@   props C13
 //@   ensures_assumed i.contents.isDeleted == old(i.contents.isDeleted) -- the directories removed recursively are descendants of i, never i itself (the directory tree is acyclic)
